@@ -247,7 +247,7 @@ def h_stixdatetime(x, e, p, site):
         if isinstance(vs, Exc):
             yield p1, vs; continue
         d = vs[0]; kw = dict(zip([k.arg for k in e.keywords], vs[1:]))
-        yield p1, Val('rec', x=dict(d.x, precision=kw['precision'], precision_constraint=kw['precision_constraint']))
+        yield p1, Val('rec', x=dict({k: v for k, v in d.x.items() if k != '_param'}, precision=kw['precision'], precision_constraint=kw['precision_constraint']))       # a new object, not the argument
 
 
 def h_isinstance_date(x, v, p, site):
@@ -255,9 +255,9 @@ def h_isinstance_date(x, v, p, site):
 
 
 def parse_contract(kind):
-    """kind: 'datetime' | 'date' | 'str'"""
+    """kind: 'datetime' | 'stixdatetime' (a datetime that already carries precision settings, e.g. a property value of another object) | 'date' | 'str'"""
     if kind == 'str': value = 'str'
-    else: value = T.mk_datetime('value', kind=kind, with_precision=False)
+    else: value = T.mk_datetime('value', kind='datetime' if kind == 'stixdatetime' else kind, with_precision=(kind == 'stixdatetime'))
     params = {'value': value, 'precision': 'enum:Precision', 'precision_constraint': 'enum:PrecisionConstraint'}
 
     def us_in(a):
@@ -280,11 +280,72 @@ def parse_contract(kind):
     def ens_aware(a, r):
         return z3.And(z3.Not(r.x['_tz_none'].t), z3.Not(r.x['tzinfo'].t[1].x['_offset_none'].t))
 
+    # ---- native side: replay of solver candidates and a search family (used when the contract is undecided on the current source)
+    def call(py):
+        import stix2.utils as U, copy as _c
+        v = py['value']
+        before = (repr(v), getattr(v, 'precision', None), getattr(v, 'precision_constraint', None))
+        r = U.parse_into_datetime(v, U.Precision[py['precision']], U.PrecisionConstraint[py['precision_constraint']])
+        after = (repr(v), getattr(v, 'precision', None), getattr(v, 'precision_constraint', None))
+        py['_argument_changed'] = None if before == after else f'{before} -> {after}'
+        return r
+
+    def lower(model):
+        v = model['value'] if kind == 'str' else _lower_dttm(model, 'value')['value']
+        if kind == 'date': v = v.date()
+        return {'value': v, 'precision': str(model['precision']), 'precision_constraint': str(model['precision_constraint'])}
+
+    def search():
+        import stix2.utils as U
+        if kind == 'str':
+            vals = ['2020-01-01T00:00:00Z', '2020-01-01T00:00:00.1Z', '2020-01-01T00:00:00.120Z', '2020-01-01T00:00:00.123Z', '2020-01-01T00:00:00.000001Z', '2020-01-01T00:00:00.123456Z',
+                    '2020-12-31T23:59:59.999999Z', '0001-01-01T00:00:00Z', '9999-12-31T23:59:59.999Z', '2020-02-29T12:00:00.5Z', 'garbage', '2020-13-01T00:00:00Z', '2020-01-01', '']
+        elif kind == 'date': vals = [dtm.date(2020, 1, 1), dtm.date(1, 1, 1), dtm.date(9999, 12, 31), dtm.date(2020, 2, 29)]
+        else:
+            vals = []
+            for us in (0, 1, 999, 1000, 123456, 999999):
+                for tz in (None, dtm.timezone.utc, dtm.timezone(dtm.timedelta(hours=5, minutes=30)), dtm.timezone(dtm.timedelta(hours=-5))):
+                    d = dtm.datetime(2020, 1, 1, 22, 59, 59, us, tzinfo=tz)
+                    if kind == 'datetime': vals.append(d)
+                    elif tz is not None:
+                        for P0, C0 in (('MILLISECOND', 'EXACT'), ('SECOND', 'EXACT'), ('ANY', 'EXACT'), ('MILLISECOND', 'MIN')):
+                            vals.append(U.STIXdatetime(d, precision=U.Precision[P0], precision_constraint=U.PrecisionConstraint[C0]))
+        for v in vals:
+            for P in ('ANY', 'SECOND', 'MILLISECOND'):
+                for C in ('EXACT', 'MIN'): yield {'value': v, 'precision': P, 'precision_constraint': C}
+
+    def judge(py, outcome, ob):
+        kind_, val = outcome; v = py['value']; P, C = py['precision'], py['precision_constraint']
+        what = f'parse_into_datetime({v!r}, {P}, {C})'
+        if kind == 'str':
+            m = TS_RE.match(v)
+            u = None
+            if m:
+                try:
+                    y, mo, d, h, mi, sec = (int(g) for g in m.groups()[:6]); frac = m.group(8)
+                    if m.group(7) and not frac or len(frac) > 6: u = None
+                    else: u = _us_of_py(dtm.datetime(y, mo, d, h, mi, sec, int(frac.ljust(6, '0')) if frac else 0))
+                except ValueError: u = None
+            if u is None:
+                if kind_ == 'raise': return [] if isinstance(val, ValueError) else [f'{what} raised {type(val).__name__} instead of ValueError']
+                return []        # how lenient the reader is with malformed text is not part of this contract
+        elif kind == 'date': u = _us_of_py(dtm.datetime(v.year, v.month, v.day))
+        else: u = _us_of_py(v)
+        if kind_ == 'raise': return [f'{what} raised {type(val).__name__}: {val}']
+        bad = []
+        want = u - u % M if (P, C) == ('SECOND', 'EXACT') else u - u % 1000 if (P, C) == ('MILLISECOND', 'EXACT') else u
+        if not isinstance(val, dtm.datetime) or val.tzinfo is None or val.tzinfo.utcoffset(val) is None: return [f'{what} -> {val!r}: not a timezone-aware datetime']
+        if _us_of_py(val) != want: bad.append(f'{what} -> {val!r}: instant {_us_of_py(val)} us, expected {want} us (truncation only under an EXACT constraint, never rounding)')
+        if getattr(getattr(val, 'precision', None), 'name', None) != P or getattr(getattr(val, 'precision_constraint', None), 'name', None) != C: bad.append(f'{what}: precision settings on the result are {getattr(val, "precision", None)}, {getattr(val, "precision_constraint", None)}')
+        if py.get('_argument_changed'): bad.append(f'{what} modified its argument: {py["_argument_changed"]}')
+        return bad
+    rp = Replay(call=call, lower=lower, judge=judge); rp.search = search
+
     req = []
-    if kind == 'datetime': req.append(('well-formed datetime', lambda a: T.well_formed_dt(a['value'])))
+    if kind in ('datetime', 'stixdatetime'): req.append(('well-formed datetime', lambda a: T.well_formed_dt(a['value'])))
     if kind == 'date': req.append(('date: midnight', lambda a: z3.And(a['value'].x['_us'].t >= 0, a['value'].x['_us'].t % (86400 * M) == 0, a['value'].x['_off'].t == 0)))
     return Contract(
-        f'{SRC}::parse_into_datetime', props=['C15', 'C01', 'C05'],
+        f'{SRC}::parse_into_datetime', props=['C15', 'C01', 'C05', 'C02', 'C06', 'C13'], replay=rp,
         params=params, requires=req,
         ensures=[('instant preserved, truncated (never rounded) only under an EXACT constraint', ens_instant),
                  ('precision metadata recorded on the result', ens_meta),
